@@ -14,6 +14,24 @@ CHECKS = {
         note="Trusted: Lean kernel + {propext, Classical.choice, Quot.sound}; leaf equality as Python ==; pickle round trip stands for the queue transport; correspondence is testing (generator-bounded). Integration through the loader uses virtual worker processes (harness/vsched.py).",
         ref="DESIGN.md §7 C07",
     ),
+    "C13": dict(
+        technique="Lean 4 proof: refinement of the flag-based Loader / StatefulDataLoader facades to a list-based reference for every API history (simulation relation, induction over op lists) + differential correspondence of both real facades against the model",
+        text="TDV.Loader.refines_ref / TDV.SDLApi.refines_ref: for every Lawful root, every restart/persistent setting and every finite history over {iter, next, state_dict, load_state_dict(any earlier state)} the model's observations equal the reference's (with the reference's documented open choice set to the code's); resume_exact, get_transparent_partial, load_idempotent, epoch_counter. The strict readings of the property text are kept as *_statement with decided negation witnesses (three known findings, replayed on the real code). Tie: random API histories through the real Loader/SDL and the Lean model on every run.",
+        note="Trusted: Lean kernel + standard axioms; the root node / the SDL iterator are abstract parameters (their exactness is C02 / C01); correspondence is testing. Multi-worker SDL histories run on virtual worker processes.",
+        ref="DESIGN.md §7 C13",
+    ),
+    "C14": dict(
+        technique="Lean 4 proof over all source lengths and all choice streams (induction over the sampling loop) + differential correspondence against the real MultiNodeWeightedSampler fed with the independently reproduced multinomial stream",
+        text="TDV.Weighted: per_source_order, all_exhausted_exact, first_exhausted_exact, cycle_until_partial / cycle_forever_partial (non-empty sources; full statements refuted on the empty-source witness = known finding), fair_terminates, resume_choices, node_resume_exact, reset_none_epoch. Tie: real node vs model on generated op scripts with the choice stream rebuilt from the documented (seed, rank, world_size, epoch) recipe.",
+        note="Trusted: Lean kernel + standard axioms; torch.multinomial / Generator are an oracle stream (not modelled); source nodes assumed exact (C02).",
+        ref="DESIGN.md §7 C14",
+    ),
+    "C15": dict(
+        technique="Lean 4 proof over all sizes and interruption points (abstract generator; induction over chunk / permutation boundaries) + differential correspondence against the real sampler classes and torch's samplers",
+        text="TDV.Sampler: random_epoch_perm, random_with_replacement_len, random_resume_exact/_remaining, random_next_epoch_unaffected, batch_eq_chunk, batch_resume_*, dist_len/get/partition, dist_resume_exact, dist_following_epoch for every n, num_samples, batch size, replica count, rank and position. Tie: op scripts on the real classes vs the model with recorded torch draws; index lists compared with torch.utils.data samplers.",
+        note="Trusted: Lean kernel + standard axioms; torch RNG is an abstract generator (draws replayed from the real torch stream); correspondence is testing.",
+        ref="DESIGN.md §7 C15",
+    ),
 }
 
 NOT_YET = "check not built yet (work in progress; see DESIGN.md section 7)"
